@@ -1,5 +1,6 @@
 import SuitVerif.Storage
 import SuitVerif.Generated.Layout
+import SuitVerif.IHexText
 /-! # C07 — boot storage images place each installed envelope intact in its role's slot -/
 namespace SuitVerif.Props.C07
 open SuitVerif SuitVerif.Storage SuitVerif.IHex
@@ -129,5 +130,25 @@ theorem C07_no_partial_output (cx : Encode.Ctx) (layout : List Slot) (domains : 
     (h : files.foldlM (fun st f => addEnvelope cx layout tbl st f) [] = .error e) :
     boot cx layout domains tbl base files = .error e := by
   simp [boot, h, bind, Except.bind]
+
+/-! ### file level: the text of a domain's hex file
+
+The statements above are about the image of a domain (the slots at base + offset); a domain's file holds several separate blocks.  `IHexImage.lean`
+models the third-party writer for whole images (extension records, 16-byte records cut at 64 KiB borders and at the end of every block); the strict
+reader gives the image back, for every canonical image below 2^32.  The harness compares the model's text with the file the tool wrote for every
+domain of every run (`writer-model:*` in the evidence). -/
+
+/-- the text of the file the writer model produces for a canonical image reads back, with the strict reader, as exactly that image -/
+theorem C07_file_reads_back (c : Image) (hsep : IHex.Separated c) (hb : ∀ s ∈ c, s.1 + s.2.length ≤ 2 ^ 32) :
+    IHex.read (IHex.writeImageText c) = some c := IHex.read_writeImageText c hsep hb
+
+/-- a concrete file of two slots in one domain, the second beyond a 64 KiB border (kernel evaluation; hypotheses of the theorem met) -/
+example : IHex.read (IHex.writeImageText [(0x0E1EFFF0, (List.range 40).map UInt8.ofNat), (0x0E1F0400, [1, 2, 3])])
+    = some [(0x0E1EFFF0, (List.range 40).map UInt8.ofNat), (0x0E1F0400, [1, 2, 3])] := by decide +kernel
+
+example : IHex.Separated [(0x0E1EFFF0, (List.range 40).map UInt8.ofNat), (0x0E1F0400, [1, 2, 3])] := by
+  refine ⟨by decide, by decide, ?_⟩
+  show ([1, 2, 3] : Bytes) ≠ []
+  decide
 
 end SuitVerif.Props.C07
